@@ -19,7 +19,7 @@ PROPS = {
               'non-trivial = at least one reach probe hit (exhaustion, cursor wrap, reuse after release, move onto live owner, ...); '
               'distinct = distinct FNV-1a hashes of the full event log'),
         expect_probes=['token_space_exhausted', 'cursor_wrapped', 'token_reused_after_release', 'move_assign_onto_live_owner',
-                       'lookup_of_released_token', 'owner_moved', 'owner_move_constructed_from_inert_source'],
+                       'lookup_of_released_token', 'owner_moved', 'owner_move_constructed_from_inert_source', 'null_application_pointer_registered'],
         components=COMPONENTS_SIM,
         assumptions=['uint8_t instantiation of app_pointer_map is representative of the uint32_t one apart from the limit (same template code)',
                      'limit 255 for uint8_t is excluded: the scan loop cannot terminate there by construction of the type, not by the algorithm',
@@ -69,7 +69,7 @@ CB_RULE = ('one run = one seeded history (<=60 ops) on 1-3 sandboxes of one back
            'invoke->callback->invoke chains to depth 4 across sandboxes, hostile and unrepresentable return values, raw guest-chosen entry indices on the stub); '
            'the reference model is the set of live registrations per sandbox incarnation; non-trivial = a fault fired or a reach probe hit; distinct = event-log hashes')
 CB_WORLD = dict(world='callback', variants=['plain', 'tls'], quick=dict(count=160000, time_limit=60), thorough=dict(count=8000000, time_limit=900))
-CB_COMPONENTS = dict(real_code=COMPONENTS_SIM['real_code'] + ['rlbox_noop_sandbox.hpp', 'rlbox_dylib_sandbox.hpp (dlopen of build/libguest{0,1}.so)'],
+CB_COMPONENTS = dict(real_code=COMPONENTS_SIM['real_code'] + ['rlbox_noop_sandbox.hpp', 'rlbox_dylib_sandbox.hpp (dlopen of build/libguest{0,1,2,3}.so)'],
                      stubs=COMPONENTS_SIM['stubs'] + ['guest C library sim/guestlib.c (real machine code, plays the sandboxed library for noop/dylib)'])
 CB_ASSUME = ['noop/dylib: reachability is judged through public behaviour only (is_unregistered, entry-point values, ability to re-register, what a guest call reaches); '
              'on the stub the backend table is compared with the model directly',
@@ -173,8 +173,8 @@ TR_RULE = ('one run = one tree of nested crossings (invoke -> guest makes 0-3 ca
            'catch an inner abort and continue, and may change their sandbox\'s transition state mid-crossing; the recorded hook sequence must equal the model\'s bracket word '
            '(an entry that aborted before the guest ran may be announced-and-closed or not announced), the timing vector must hold exactly one record of the right kind and '
            'identity per crossing with a time inside the simulated span; quick tier enumerates 24 tree shapes (depth<=3, width<=2) x 2 backends x 1-2 sandboxes x every single '
-           'abort position; builds: hooks only, timing only, both; non-trivial = an abort fired or the state changed inside a crossing; distinct = event-log hashes')
-TR_WORLD = dict(world='transition', variants=['hooks', 'timing', 'both'], quick=dict(count=150000, time_limit=60, enumerate=True),
+           'abort position; builds: hooks only, timing only, both, and an application that defines only the IN or only the OUT notification (the recorded sequence must be the full word with the other kind left out); non-trivial = an abort fired or the state changed inside a crossing; distinct = event-log hashes')
+TR_WORLD = dict(world='transition', variants=['hooks', 'timing', 'both', 'inonly', 'outonly'], quick=dict(count=200000, time_limit=60, enumerate=True),
                 thorough=dict(count=9000000, time_limit=900, enumerate=True))
 PROPS.update({
     'C19': dict(level='fault_enumeration', worlds=[TR_WORLD], rule=TR_RULE,
@@ -183,16 +183,18 @@ PROPS.update({
                                                                  'hook macros RLBOX_TRANSITION_ACTION_IN/OUT recording into the history']),
                 exhaustive_subspace='24 tree shapes (depth<=3, width<=2) x {sim, noop} x {1,2} sandboxes x every single abort position (0..28), per build',
                 expect_probes=['F9_abort_at_argument_conversion', 'F9_abort_in_callback_body', 'F9_guest_trap', 'F9_unrepresentable_callback_result',
-                               'inner_abort_caught_by_outer_callback', 'transition_state_changed_inside_callback'],
+                               'inner_abort_caught_by_outer_callback', 'transition_state_changed_inside_callback', 'transition_state_installed_before_create',
+                               'transition_state_installed_in_earlier_incarnation'],
                 assumptions=['hooks themselves never abort (the OUT / closing IN notifications run inside scope guards, an abort there would terminate the process)',
                              'an invocation that aborts during argument conversion, before sandboxed code is entered: announced-and-closed or silent are both accepted, an unmatched notification never is',
-                             'timing values are checked for range (0 <= t <= simulated time elapsed), kind and identity, not for equality with a predicted difference of clock readings']),
+                             'timing values are compared exactly with the difference of the two simulated clock readings that delimit the crossing whenever the model can tell which readings those are, and for range otherwise']),
 })
 
 TH_RULE = ('one run = 2-8 real threads (quick: 2-5), each executing its own seeded plan over its own 1-2 sandbox objects of a backend type shared with other threads '
            '(sim stub in registry flavour: every example-based pointer translation walks the shared live-sandbox list under the shared lock; noop: per-thread current-sandbox '
            'record), operations create / destroy / re-create / pointer store+load through a cell / register / unregister / invoke with 1-3 callback calls and a nested invoke '
-           'on the thread\'s second sandbox / invoke by name / malloc+free; one seeded scheduler decides which thread runs at every yield point (acquire and release of every '
+           'on the thread\'s second sandbox / invoke by name / malloc+free; threads 0-3 additionally own an instance of the real dylib plug-in, each on its own copy of the guest '
+           'library (four files exporting the same symbols), whose functions reach the library\'s own exported counter and functions through GOT/PLT; one seeded scheduler decides which thread runs at every yield point (acquire and release of every '
            'RLBox shared lock through RLBOX_USE_CUSTOM_SHARED_LOCK, every backend entry point incl. the membership predicate called under the list lock, guest code, callback '
            'bodies, between operations) with uniform / sticky / priority-with-change-points policies; the lock model blocks writers behind readers and vice versa; '
            'oracles: per-thread single-threaded expectations, no deadlock (no runnable thread), progress within 200000 decisions, and in the ThreadSanitizer build zero race '
@@ -201,10 +203,10 @@ TH_WORLD = dict(world='threads', variants=['plain', 'tls', 'tsan'], quick=dict(c
                 thorough=dict(count=3000000, time_limit=900, variant_share={'plain': 0.35, 'tls': 0.2, 'tsan': 0.45}))
 PROPS.update({
     'C18': dict(level='exploration', worlds=[TH_WORLD], rule=TH_RULE,
-                components=dict(real_code=CB_COMPONENTS['real_code'][:2],
-                                stubs=COMPONENTS_SIM['stubs'] + ['seeded scheduler over real threads (sim/sched.cpp, raw futex hand-off compiled without TSan)',
+                components=dict(real_code=CB_COMPONENTS['real_code'][:2] + ['rlbox_dylib_sandbox.hpp (one instance per thread for threads 0-3, dlopen of build/libguest{0,1,2,3}.so)'],
+                                stubs=COMPONENTS_SIM['stubs'] + ['guest C library sim/guestlib.c (real machine code, four copies)', 'seeded scheduler over real threads (sim/sched.cpp, raw futex hand-off compiled without TSan)',
                                                                  'lock type plugged in through RLBOX_USE_CUSTOM_SHARED_LOCK (model in the scheduler + a real shared_timed_mutex locked after the grant so that TSan sees RLBox\'s own lock edges)']),
-                expect_probes=['thread_waited_for_rlbox_lock', 'thread_descheduled_while_holding_rlbox_lock', 'nested_invoke_on_second_sandbox_of_thread'],
+                expect_probes=['thread_waited_for_rlbox_lock', 'thread_descheduled_while_holding_rlbox_lock', 'nested_invoke_on_second_sandbox_of_thread', 'dylib_instance_per_thread', 'other_sandbox_destroyed_inside_a_callback'],
                 assumptions=['threads never share one sandbox instance (RLBOX_SINGLE_THREADED_INVOCATIONS is mandatory and the property only promises distinct instances on distinct threads)',
                              'thread switches happen only at yield points; races between yield points are left to ThreadSanitizer\'s happens-before analysis, which does not need the accesses to overlap in time',
                              'std::mutex callback_lock has no yield point inside its critical sections, so a parked thread never holds it']),
@@ -214,7 +216,8 @@ PROPS.update({
 for _w in PROPS['C13']['worlds']:
     pass
 PROPS['C13']['worlds'] = [w for w in PROPS['C13']['worlds'] if w != 'TH_FOR_C13'] + [dict(TH_WORLD, quick=dict(TH_WORLD['quick'], count=30000))]
-PROPS['C13']['expect_probes'] = PROPS['C13']['expect_probes'] + ['registration_on_shared_sandbox', 'shared_sandbox_registrations_from_several_threads']
+PROPS['C13']['expect_probes'] = PROPS['C13']['expect_probes'] + ['registration_on_shared_sandbox', 'shared_sandbox_registrations_from_several_threads', 'registration_on_shared_noop_sandbox',
+                                                                 'registration_made_while_an_exception_unwinds', 'registration_made_inside_a_callback', 'owner_released_inside_a_callback']
 PROPS['C13']['assumptions'] = PROPS['C13']['assumptions'] + ['same-instance concurrency is exercised for callback registration/unregistration only (the part of a sandbox object RLBox guards with callback_lock); everything else is single-threaded per instance as RLBOX_SINGLE_THREADED_INVOCATIONS demands']
 
 # C12 also uses the transition world: aborts unwinding through nested crossings (and caught by an outer callback) are generated there,
